@@ -19,7 +19,7 @@ ASSUMPTIONS = [
     'segment cost and distances are the library\'s own primitives (linear_fit_points + compute_cost_coef, *_distance_points), as the statement says',
     'a cost within 1e-9 relative of t (but not equal) is ambiguous: either decision accepted',
     'an exact tie cost == t is decisive only if the value is robust (bit-identical under three summation orders in plain IEEE arithmetic)',
-    'noise tolerance for "farthest": d >= dmax - (1e-9(1+dmax) + eps)',
+    'noise tolerance for "farthest" is relative: d >= dmax - (1e-9 dmax + 64 eps max|coordinate|)',
 ]
 BOUNDS = {
     'quick': {'A': 'n<=4 complete', 'B,C': 'n<=4', 'A1': 'n=5', 'G12Y013 re-embedded (y*2^-34; x*2^-20,y*2^-27; y*2^34)': 'n=5', 'thresholds/curve': '2 fixed + all attained segment costs', 'trace windows': 'web0_reduced.csv w=12, usr0.csv[::64] w=16'},
